@@ -175,6 +175,9 @@ class OperatorMapper:
         operator_name = operation.__name__
 
         if operation is operator.eq or operator_name == "eq":
+            if self._is_sql_expression(left) and self._is_sql_expression(right):
+                # None == None holds in Python, NULL = NULL does not in SQL.
+                return left.is_not_distinct_from(right)
             return left == right
         if operation is operator.gt or operator_name == "gt":
             return left > right
@@ -185,9 +188,20 @@ class OperatorMapper:
         if operation is operator.le or operator_name == "le":
             return left <= right
         if operation is operator.ne or operator_name == "ne":
+            if self._is_sql_expression(left):
+                # None != 1 holds in Python, NULL != 1 does not in SQL.
+                return left.is_distinct_from(right)
             return left != right
 
         raise UnsupportedOperatorError(f"Unknown operator: {operation}")
+
+    @staticmethod
+    def _is_sql_expression(operand: Any) -> bool:
+        """
+        :param operand: A translated operand of a comparison.
+        :return: True if the operand is a column or another SQL expression, False if it is a plain Python value.
+        """
+        return hasattr(operand, "is_distinct_from")
 
     def map_contains_operator(self, operation: Any, left: Any, right: Any) -> Any:
         """
